@@ -8,6 +8,8 @@ G-NODES   every public generator with a node-count / node-collection parameter c
 G-SKIP    the skip-sampling loops agree with their bound: `index <= B` with B = count - 1, or `index < B` with B = count;
           the first index is geometric(p) - 1 and the step is geometric(p).
 G-P01     geometric(p) returns 1 for p = 1 and infinity for p = 0 (its two handlers), so the loops handle both extremes.
+G-ALIGN   two sequences that are consumed pairwise (zip(order, ps)) are never reordered or de-duplicated one without the
+          other (np.unique / sorted / set on `order` alone hands every probability to another order).
 G-RADIX   the mixed-radix index decoders take, for position r, the place value prod(sizes after r) (or n**r) and the digit
           modulo the size of position r - extracted as expressions over the comprehension index.
 Edge counts, distributions and bijectivity on concrete inputs are NOT decided.
@@ -45,7 +47,7 @@ def depth(k):
 def run(ctx):
     repo = ctx.repo
     res = Result(PROP)
-    res.rules = ["G-MEMBER", "G-NODES", "G-SKIP", "G-P01", "G-RADIX"]
+    res.rules = ["G-MEMBER", "G-NODES", "G-SKIP", "G-P01", "G-RADIX", "G-ALIGN"]
     res.explanation = (
         "Narrow claim: shape (nesting) of the members handed to the edge-adding methods from kind inference, must-reach of "
         "add_nodes_from on the returned network, agreement of skip-sampling loop conditions with their bounds, the two "
@@ -77,7 +79,54 @@ def run(ctx):
         check_skip(repo, res, fns)
         check_geometric(repo, res)
         check_radix(repo, res)
+        check_align(repo, res, fns)
     return res
+
+
+REORDERING = {"unique", "sorted", "sort", "set", "frozenset", "reversed", "argsort", "flip", "shuffle", "permutation"}
+
+
+def _reorderings(fn_node, name, repo, fn, seen=()):
+    """Order-changing operations applied to `name` inside fn_node: list of (stmt, operation)."""
+    out = []
+    for st in own_statements(fn_node):
+        if isinstance(st, ast.Assign) and any(isinstance(t, ast.Name) and t.id == name for t in st.targets):
+            for c in ast.walk(st.value):
+                if isinstance(c, ast.Call):
+                    nm = getattr(c.func, "attr", getattr(c.func, "id", None))
+                    if nm in REORDERING and any(isinstance(x, ast.Name) and x.id == name for a in c.args for x in ast.walk(a)):
+                        out.append((st, nm))
+                if isinstance(c, ast.Subscript) and isinstance(c.slice, ast.Slice) and c.slice.step is not None and isinstance(c.value, ast.Name) and c.value.id == name:
+                    out.append((st, "slice with a step"))
+        if isinstance(st, ast.Expr) and isinstance(st.value, ast.Call) and isinstance(st.value.func, ast.Attribute) and st.value.func.attr in ("sort", "reverse") and isinstance(st.value.func.value, ast.Name) and st.value.func.value.id == name:
+            out.append((st, st.value.func.attr))
+        # x, y = helper(x, y): look at what the helper does to the corresponding returned names
+        if isinstance(st, ast.Assign) and len(st.targets) == 1 and isinstance(st.targets[0], ast.Tuple) and isinstance(st.value, ast.Call) and isinstance(st.value.func, ast.Name):
+            names = [t.id if isinstance(t, ast.Name) else None for t in st.targets[0].elts]
+            if name in names and st.value.func.id not in seen:
+                tgt = repo.resolve_name(fn, fn.module, st.value.func.id)
+                if hasattr(tgt, "node") and getattr(tgt, "cls", None) is None:
+                    pos = names.index(name)
+                    for r in own_statements(tgt.node):
+                        if isinstance(r, ast.Return) and isinstance(r.value, ast.Tuple) and pos < len(r.value.elts) and isinstance(r.value.elts[pos], ast.Name):
+                            out += [(s2, f"{op} (in {tgt.name})") for s2, op in _reorderings(tgt.node, r.value.elts[pos].id, repo, tgt, seen + (st.value.func.id,))]
+    return out
+
+
+def check_align(repo, res, fns):
+    n = 0
+    for fn in fns:
+        for c in ast.walk(fn.node):
+            if isinstance(c, ast.Call) and isinstance(c.func, ast.Name) and c.func.id == "zip" and len(c.args) >= 2 and all(isinstance(a, ast.Name) for a in c.args):
+                n += 1
+                per = {a.id: _reorderings(fn.node, a.id, repo, fn) for a in c.args}
+                moved = {k: v for k, v in per.items() if v}
+                ok = not moved or len(moved) == len(per)
+                res.inst("G-ALIGN", f"{fn.qualname}:{c.lineno} zip({', '.join(per)}): neither side reordered alone", ok)
+                if not ok:
+                    k, v = next(iter(moved.items()))
+                    res.add(mk_finding(PROP, "G-ALIGN", fn, v[0][0], f"{fn.qualname}: `{k}` is consumed pairwise with {sorted(set(per) - {k})} (zip at line {c.lineno}) but is reordered on its own by {v[0][1]}: `{unparse(v[0][0], 50)}`; element i of one sequence then meets element j of the other (a probability is applied to the wrong order)", role=k))
+    res.floor("pairwise-consumed sequences in generators", n, 3)
 
 
 def check_nodes(repo, res, fns):
